@@ -67,7 +67,16 @@ def nshards(tier):
 RT_TYPES = ('clock', 'start', 'continue', 'stop')
 
 
+class UserNoteOn(Message):
+    """An application's Message subclass with its own constructor signature."""
+
+    def __init__(self, note, velocity=64, channel=0):
+        Message.__init__(self, 'note_on', note=note, velocity=velocity, channel=channel)
+
+
 def make_msg(s, q, kind):
+    if kind == 5:
+        return UserNoteOn(q, 100, s)
     if kind == 3:
         return Message(RT_TYPES[q])      # a real-time message: identified by its type, sent once
     if kind == 4:
@@ -112,7 +121,9 @@ def sender(rec, tid, port, pname, s, seqs, kinds):
         for q, kind in zip(seqs, kinds):
             m = make_msg(s, q, kind)
             tag = msg_tag(m)
-            rec.sent[tag] = (m.copy(), m, pname)
+            snap = type(m).__new__(type(m))          # the recorder's own snapshot (no library call)
+            vars(snap).update(vars(m))
+            rec.sent[tag] = (snap, m, pname)
             rec.call(tid, 'send', pname, tag)
             try:
                 port.send(m)
@@ -226,7 +237,7 @@ class P2Echo(Program):
         self.ports = {'e': p}
         self.wires = []
         self.route = lambda pname: ['e']
-        return [sender(rec, 0, p, 'e', 0, (0, 1, 2), (0, 2, 1)), receiver(rec, 1, p, 'e', [('poll', 3, 9)]),
+        return [sender(rec, 0, p, 'e', 0, (0, 1, 2), (0, 5, 1)), receiver(rec, 1, p, 'e', [('poll', 3, 9)]),
                 receiver(rec, 2, p, 'e', [('poll', 2, 9)])]
 
 
@@ -253,12 +264,12 @@ class P4Fanout(Program):
     def build(self, sc, rec):
         e0 = self.wrap(sc, EchoPort('e0'), 'e0')
         e1 = self.wrap(sc, EchoPort('e1'), 'e1')
-        m = self.wrap(sc, MultiPort([e0, e1]), 'multi')
+        m = self.wrap(sc, MultiPort(p for p in (e0, e1)), 'multi')       # the members come from a one-shot iterable
         self.ports = {'e0': e0, 'e1': e1}
         self.keep = (m,)
         self.wires = []
         self.route = lambda pname: ['e0', 'e1']
-        return [sender(rec, 0, m, 'multi', 0, (0, 1), (0, 1)), receiver(rec, 1, e0, 'e0', [('poll', 3, 9)]),
+        return [sender(rec, 0, m, 'multi', 0, (0, 1), (5, 1)), receiver(rec, 1, e0, 'e0', [('poll', 3, 9)]),
                 receiver(rec, 2, e1, 'e1', [('poll', 2, 9), ('iter_pending',)])]
 
 
@@ -268,7 +279,7 @@ class P4Fanin(Program):
     def build(self, sc, rec):
         e0 = self.wrap(sc, EchoPort('e0'), 'e0')
         e1 = self.wrap(sc, EchoPort('e1'), 'e1')
-        m = self.wrap(sc, MultiPort([e0, e1]), 'multi')
+        m = self.wrap(sc, MultiPort(iter([e0, e1])), 'multi')           # ... here too
         self.ports = {'multi': m}
         self.keep = (e0, e1)
         self.wires = []
